@@ -16,7 +16,7 @@
 static bool eq(const XMLCh* a, const XMLCh* b) { return a[0] == b[0] && (a[0] == 0 || (a[1] == b[1])); }
 extern "C" void harness_history(void) {
   VxMMFixed<16> mm; XMLPlatformUtils::fgMemoryManager = &mm;      // list node = 16 bytes, URI copy <= 6 bytes
-  alignas(8) char ubuf[sizeof(XIncludeUtils)]; XIncludeUtils* u = (XIncludeUtils*)ubuf; u->fIncludeHistoryHead = 0;
+  VxRaw<XIncludeUtils> ur; XIncludeUtils* u = &ur.obj; u->fIncludeHistoryHead = 0;
   XMLCh uri[K][3]; int depth = 0; XMLCh st[K][3]; bool popped = false;
   for (int s = 0; s < K; s++) {
     if (nondet_bool()) {
